@@ -859,6 +859,7 @@ func (s *Stage) process(file *finalFile) {
 
 	// Validate checksum.
 	hash, err := fileutil.FileMD5(file.path + fullExt)
+	verifhook.Point("stage.process.hashed", file.name, file.hash, s.rootDir)
 	if err != nil {
 		os.Remove(file.path + compExt)
 		verifhook.Point("stage.d.rmcmp", file.path)
